@@ -34,7 +34,20 @@ func init() { register("C06", runC06) }
 
 const c06RelNow = 100000
 
-var c06RingIDs = []string{"a", "b", "c", "d"}
+// instance / owner / partition names: some are proper prefixes of others ("i1" / "i10" / "i1-0", "1" / "10"),
+// because the invalidation rule and the merge work on names
+var c06RingIDs = []string{"i1", "i10", "i1-0", "i2"}
+var c06OwnerIDs = []string{"o1", "o10", "o1-0"}
+var c06PartIDs = []int{1, 10, 2}
+
+func c06Idx(names []string, id string) int {
+	for i, n := range names {
+		if n == id {
+			return i
+		}
+	}
+	return 0
+}
 var c06States = []ring.InstanceState{ring.ACTIVE, ring.LEAVING, ring.PENDING, ring.JOINING}
 
 // ---------------------------------------------------------------- canonical encodings (relative time)
@@ -249,7 +262,7 @@ func guarded(f func()) (panicked string) {
 // static per-id content: address and zone are functions of the id; tokens come from a pool that is
 // private to the id (shared in the clash stream).
 func c06Tokens(id string, mask int, clash bool) []uint32 {
-	k := uint32(id[0] - 'a')
+	k := uint32(c06Idx(c06RingIDs, id))
 	pool := []uint32{k*10 + 1, k*10 + 2, k*10 + 3, 1<<32 - 1 - k}
 	if clash {
 		pool = []uint32{1, 2, 3, 4}
@@ -284,7 +297,7 @@ func (c *c06Case) applyRingOps(in interface{}, ops []string, t0 int64) (interfac
 			id := f[1]
 			delta, _ := strconv.Atoi(f[2])
 			mask, _ := strconv.Atoi(f[4])
-			d.Ingesters[id] = ring.InstanceDesc{Id: id, Addr: "addr-" + id, Zone: "z" + strconv.Itoa(int(id[0]-'a')%2), Timestamp: t0 - int64(delta) + c.base,
+			d.Ingesters[id] = ring.InstanceDesc{Id: id, Addr: "addr-" + id, Zone: "z" + strconv.Itoa(c06Idx(c06RingIDs, id)%2), Timestamp: t0 - int64(delta) + c.base,
 				State: codeState[f[3]], Tokens: c06Tokens(id, mask, c.o.clash)}
 		case "rm":
 			delete(d.Ingesters, f[1])
@@ -472,11 +485,11 @@ func (c *c06Case) decodeMsgK(data []byte, allowEmptyKey, strict bool) (class str
 // (corrupted-but-decodable messages with exotic names or enum values are not delivered at all)
 func c06CleanName(s string) bool {
 	for _, r := range s {
-		if !(r >= 'a' && r <= 'z' || r >= 'A' && r <= 'Z' || r >= '0' && r <= '9' || r == '_' || r == '.') {
+		if !(r >= 'a' && r <= 'z' || r >= 'A' && r <= 'Z' || r >= '0' && r <= '9' || r == '_' || r == '.' || r == '-') {
 			return false
 		}
 	}
-	return s != "nil"
+	return s != "nil" && s != "-"
 }
 
 func c06CleanVal(v interface{}, base int64) bool {
@@ -869,6 +882,64 @@ func (c *c06Case) doDelete(n int, key string) {
 	c.emit(ev, itoa(int(c.now()))+"!"+c.snap(n))
 }
 
+// scriptPrefixDrop: node A removes an entry whose name is a proper prefix of another entry's name and
+// immediately afterwards writes that other entry: both changes are queued at A; the next gossip batch must
+// still carry the tombstone (a queued update is superseded only by an update that CONTAINS it).
+func (c *c06Case) scriptPrefixDrop() {
+	r := c.r
+	n := c.o.nNodes
+	a := r.intn(n)
+	b := (a + 1 + r.intn(n-1)) % n
+	type pair struct{ key, short, long string }
+	var pr pair
+	part := r.chance(1, 3)
+	if part {
+		pr = pick(r, []pair{{"p1", "o1", "o10"}, {"p1", "o1", "o1-0"}, {"p1", "1", "10"}})
+	} else {
+		pr = pick(r, []pair{{"r1", "i1", "i10"}, {"r1", "i1", "i1-0"}, {"r2", "i1", "i10"}})
+	}
+	wr := func(name string) string {
+		d, _ := c.nextDelta(pr.key + name)
+		switch {
+		case !part:
+			return "hb:" + name + ":" + itoa(d) + ":" + stateCode[pick(r, c06States)] + ":" + itoa(1+r.intn(15))
+		case name[0] == 'o':
+			return "oa:" + name + ":" + itoa(d) + ":" + itoa(c06PartIDs[c06Idx(c06OwnerIDs, name)]) + ":1"
+		default:
+			return "pa:" + name + ":" + itoa(d) + ":" + itoa(1+r.intn(3))
+		}
+	}
+	rm := func(name string) string {
+		switch {
+		case !part:
+			return "rm:" + name
+		case name[0] == 'o':
+			return "or:" + name
+		default:
+			return "pr:" + name
+		}
+	}
+	c.doCAS(a, pr.key, wr(pr.short)+"+"+wr(pr.long))
+	if r.chance(1, 2) {
+		// the registrations are already known to B; A's queue is drained up to the transmit limit
+		c.doGossip(a)
+		for m := range c.pool {
+			c.doDeliver(b, m)
+		}
+		for i := 0; i < c.o.mult; i++ {
+			c.doGossip(a)
+		}
+	}
+	c.doCAS(a, pr.key, rm(pr.short)) // tombstone queued
+	c.doCAS(a, pr.key, wr(pr.long))  // heartbeat of the longer name queued right behind it
+	nPool := len(c.pool)
+	c.doGossip(a)
+	for m := nPool; m < len(c.pool); m++ {
+		c.doDeliver(b, m)
+	}
+	c.doSettle("st")
+}
+
 // scriptDelPush: a node holds several keys, deletes one of them (KV.Delete: the key-level tombstone stays
 // in its store) and then pushes its full state to the others, repeatedly (LocalState serialises the
 // keys in random map order, so the deleted key precedes and follows the live ones). The live keys must
@@ -887,8 +958,8 @@ func (c *c06Case) scriptDelPush() {
 		if strings.HasPrefix(key, "p") {
 			c.doCAS(node, key, c.genPartOps(node, key))
 		} else {
-			d, _ := c.nextDelta(key + "a")
-			c.doCAS(node, key, "hb:a:"+itoa(d)+":"+stateCode[pick(r, c06States)]+":"+itoa(1+r.intn(15)))
+			d, _ := c.nextDelta(key + c06RingIDs[0])
+			c.doCAS(node, key, "hb:"+c06RingIDs[0]+":"+itoa(d)+":"+stateCode[pick(r, c06States)]+":"+itoa(1+r.intn(15)))
 		}
 	}
 	for _, k := range ks {
@@ -930,7 +1001,7 @@ func (c *c06Case) scriptUnknownLeft() {
 	}
 	key := pick(r, []string{"r1", "r2"})
 	x := pick(r, c06RingIDs[:3])
-	other := "d"
+	other := c06RingIDs[3]
 	hb := func(id string) string {
 		d, _ := c.nextDelta(key + id)
 		return "hb:" + id + ":" + itoa(d) + ":" + stateCode[pick(r, c06States)] + ":" + itoa(1+r.intn(15))
@@ -1100,8 +1171,8 @@ func (c *c06Case) genPartOps(n int, key string) string {
 		return itoa(d)
 	}
 	for i := 0; i < k; i++ {
-		pid := r.intn(3)
-		oid := pick(r, []string{"oa", "ob", "oc"})
+		pid := pick(r, c06PartIDs)
+		oid := pick(r, c06OwnerIDs)
 		rem := r.intn(100) < c.o.removal
 		switch r.intn(3) {
 		case 0:
@@ -1118,7 +1189,7 @@ func (c *c06Case) genPartOps(n int, key string) string {
 			} else {
 				if d := nd("o" + oid); d != "" {
 					// the owned partition is a function of the owner (static content, like an instance's address)
-					ops = append(ops, "oa:"+oid+":"+d+":"+itoa(int(oid[1]-'a'))+":"+itoa(1))
+					ops = append(ops, "oa:"+oid+":"+d+":"+itoa(c06PartIDs[c06Idx(c06OwnerIDs, oid)])+":"+itoa(1))
 				}
 			}
 		default:
@@ -1172,15 +1243,15 @@ func (c *c06Case) run() (cfg, events, obs string) {
 	if o.script == "gcsilent" {
 		// a tombstone reaches a peer only after the retention: the peer's entry is collected in a merge
 		// that reports no change (dedicated GC case, DESIGN C04: mergeValueForKey early return)
-		c.doCAS(0, "r1", "hb:a:1:A:3")
-		c.doCAS(0, "r1", "hb:b:1:A:5")
+		c.doCAS(0, "r1", "hb:i1:1:A:3")
+		c.doCAS(0, "r1", "hb:i10:1:A:5")
 		c.doGossip(0)
 		for m := range c.pool {
 			c.doDeliver(1, m)
 		}
 		c.doWatch(1, false, "r1")
 		c.doSettle("st")
-		c.doCAS(0, "r1", "rm:a")
+		c.doCAS(0, "r1", "rm:i1")
 		c.doGossip(0)
 		for i := 0; i < o.lit+1; i++ {
 			time.Sleep(1100 * time.Millisecond)
@@ -1194,6 +1265,9 @@ func (c *c06Case) run() (cfg, events, obs string) {
 	}
 	if o.script == "delpush" {
 		c.scriptDelPush()
+	}
+	if o.script == "prefixdrop" {
+		c.scriptPrefixDrop()
 	}
 	for step := 0; step < o.nEvents; step++ {
 		n := r.intn(o.nNodes)
@@ -1338,16 +1412,13 @@ func c06RunMany(e *env, cmd string, n int, stream uint64, mk func(i int, r *rng)
 
 func c06Invalidation(e *env) {
 	r := newRng(e.seed, 61)
-	names := []string{"a", "b", "c", ""}
-	sub := func() []string {
+	// names: prefixes / substrings of each other, the empty name, names containing characters a joined
+	// representation might use as separator
+	names := []string{"i1", "i10", "i1-0", "i", "1", "10", "", "i1,i2", "i2", ",", "i1 i2", " ", "i1|i10", "|", "a/b", "/"}
+	sub := func(n int) []string {
 		var o []string
-		for _, n := range names {
-			if r.chance(1, 2) {
-				o = append(o, n)
-			}
-		}
-		if r.chance(1, 5) && len(o) > 0 {
-			o = append(o, o[0])
+		for k := 0; k < n; k++ {
+			o = append(o, pick(r, names))
 		}
 		return o
 	}
@@ -1357,16 +1428,34 @@ func c06Invalidation(e *env) {
 		}
 		o := make([]string, len(l))
 		for i, s := range l {
-			o[i] = showStr(s)
+			o[i] = hx(s)
+			if s == "" {
+				o[i] = "~" // the empty name (hx would print "-", which is the empty list)
+			}
 		}
 		return strings.Join(o, ",")
 	}
-	for i := 0; i < 1500; i++ {
-		nk, ok := pick(r, []string{"r1", "r2"}), pick(r, []string{"r1", "r1", "r2"})
-		nc, oc := sub(), sub()
-		nv, ov := uint(r.intn(4)), uint(r.intn(4))
+	emit := func(nk string, nc []string, nv uint, ok string, oc []string, ov uint) {
 		got := memberlist.VerifBroadcastInvalidates(nk, nc, nv, ok, oc, ov)
 		e.emit("C06.inv", nk, enc(nc), itoa(int(nv)), ok, enc(oc), itoa(int(ov)), c06B(got))
+	}
+	for i := 0; i < 1500; i++ {
+		nk, ok := pick(r, []string{"r1", "r2"}), pick(r, []string{"r1", "r1", "r2"})
+		emit(nk, sub(r.intn(4)), uint(r.intn(4)), ok, sub(r.intn(3)), uint(r.intn(4)))
+	}
+	// old content NOT contained in the new one although every old name is a prefix / substring of a new name
+	// or of the new names joined by a separator
+	tricky := [][2][]string{
+		{{"i10"}, {"i1"}}, {{"i1-0"}, {"i1"}}, {{"i10", "i2"}, {"i1", "i2"}}, {{"i10"}, {"i"}}, {{"i10"}, {""}},
+		{{"i1", "i2"}, {"i1,i2"}}, {{"i1", "i2"}, {","}}, {{"i1", "i2"}, {"i1 i2"}}, {{"i1", "i10"}, {"i1|i10"}}, {{"i1", "i10"}, {"|"}},
+		{{"a", "b"}, {"a/b"}}, {{"10"}, {"1"}}, {{"10", "2"}, {"1", "2"}}, {{"i1,i2"}, {"i1"}}, {{"i1,i2"}, {"i2"}}, {{"i10"}, {"10"}}, {{"i10"}, {"0"}},
+		{{"i1"}, {"i1", "i1"}}, {{"i1", "i1"}, {"i1"}}, {{}, {"i1"}}, {{"i1"}, {}}, {{"", "i1"}, {""}}, {{"i1"}, {""}},
+	}
+	for _, t := range tricky {
+		for _, v := range [][2]uint{{2, 1}, {1, 1}, {1, 2}} {
+			emit("r1", t[0], v[0], "r1", t[1], v[1])
+			emit("r1", t[0], v[0], "r2", t[1], v[1])
+		}
 	}
 }
 
@@ -1388,6 +1477,10 @@ func runC06(e *env) {
 	})
 	c06RunMany(e, "C06.run", 150*e.scale, 3, func(i int, r *rng) c06Opts {
 		return c06Opts{nNodes: 2 + r.intn(2), mult: 2, lit: 3600, gcOld: true, nEvents: 10 + r.intn(20), removal: 20}
+	})
+	// a removal immediately followed by a change of an entry whose name has the removed name as a prefix
+	c06RunMany(e, "C06.run", 100*e.scale, 9, func(i int, r *rng) c06Opts {
+		return c06Opts{nNodes: 2 + r.intn(3), mult: 1 + r.intn(3), lit: pick(r, []int{0, 300}), ni: r.chance(1, 5), nEvents: r.intn(12), removal: 25, script: "prefixdrop"}
 	})
 	// key-level Delete next to live keys: delete one key, push the full state (both key orders occur)
 	c06RunMany(e, "C06.run", 150*e.scale, 8, func(i int, r *rng) c06Opts {
